@@ -633,7 +633,7 @@ fn seq_step<T: Payload + 'static>(cx: &mut Ctx<T>, sp: &mut Spec, k: u8, i: usiz
     }
 }
 
-fn seq_post<T: Payload + 'static>(cx: &mut Ctx<T>, sp: &mut Spec) {
+fn seq_post<T: Payload + 'static>(cx: &mut Ctx<T>, sp: &mut Spec, observers: bool) {
     // ---- abstraction function ----
     let ab = cx.abs();
     assert!(ab.qlen == sp.blen, "C18: buffer length differs from the reference model");
@@ -642,7 +642,9 @@ fn seq_post<T: Payload + 'static>(cx: &mut Ctx<T>, sp: &mut Spec) {
     assert!(sp.sc == 0 && sp.rc == 0 || (ab.send_count as usize == live_s(cx) && ab.recv_count as usize == live_r(cx)),
         "C12: count differs from the number of live handles");
     assert!(ab.qlen <= ab.capacity, "C08: buffer longer than capacity");
-    observe(cx, sp);
+    if observers {
+        observe(cx, sp);
+    }
     let mut wk = 0;
     while wk < 2 {
         assert!(waker::wakes(wk) >= sp.wakes[wk], "C16/C06: the most recently supplied waker was not woken");
@@ -655,7 +657,7 @@ fn seq_post<T: Payload + 'static>(cx: &mut Ctx<T>, sp: &mut Spec) {
 /// abstraction of the real state are compared with the reference model after every call.
 /// A symbolic choice of the operation kind was measured to be out of reach: merging the heap states of
 /// 9 alternative operations takes the solver > 280 s for a single step.
-pub fn seqc<T: Payload + 'static>(cap: Option<usize>, ops: &[(u8, u8, u8, u8)]) {
+pub fn seqc<T: Payload + 'static>(cap: Option<usize>, ops: &[(u8, u8, u8, u8)], observers: bool) {
     unsafe {
         model::CLOCK_FROZEN = true;
         model::PAR = if kani::any() { 1 } else { 2 };
@@ -668,7 +670,7 @@ pub fn seqc<T: Payload + 'static>(cap: Option<usize>, ops: &[(u8, u8, u8, u8)]) 
     while i < ops.len() {
         let (k, f, w, d) = ops[i];
         seq_step(&mut cx, &mut sp, k, i, f, w, d);
-        seq_post(&mut cx, &mut sp);
+        seq_post(&mut cx, &mut sp, observers);
         i += 1;
     }
     assert!(cx.order_len == sp.order_len, "C01: number of values received differs from the reference model");
